@@ -35,11 +35,21 @@ pub fn install_observer(max_events: usize) -> EventLog {
         }
         l.push(StepEvent { expr, children: children.to_vec(), result });
     })));
+    // a chain of cache entries longer than this cannot be acyclic: the cache maps expressions of one
+    // context to expressions of the same context, and no workload creates this many of them
+    patronus::verif::set_link_observer(Some(Box::new(|links| {
+        if links > CHAIN_LIMIT {
+            panic!("VERIF-CHAIN-LIMIT");
+        }
+    })));
     log
 }
 
+pub const CHAIN_LIMIT: usize = 4_000_000;
+
 pub fn remove_observer() {
     patronus::verif::set_rewrite_observer(None);
+    patronus::verif::set_link_observer(None);
 }
 
 pub fn rule_signature(ctx: &Context, ev: &StepEvent) -> String {
@@ -279,8 +289,9 @@ impl C01 {
         let s = match res {
             Ok(s) => s,
             Err(p) => {
-                if p.msg.contains("VERIF-STEP-LIMIT") {
-                    sh.violation("C01|no-termination|step-limit", format!("more than 200000 rewrite steps for {}", r2::render(ctx, e)), json!({}));
+                if p.msg.contains("VERIF-STEP-LIMIT") || p.msg.contains("VERIF-CHAIN-LIMIT") {
+                    // termination is C13's property; without a result there is nothing to judge here
+                    sh.inconclusive(format!("the simplifier did not terminate ({}) for {}", p.msg, util::trunc(&r2::render(ctx, e), 300)));
                 } else if p.in_harness() {
                     sh.inconclusive(format!("harness panic {} {}", p.loc(), p.msg));
                 } else if let Some((sig, detail)) = noncanonical_step("C01", ctx, &events, e, what) {
